@@ -160,6 +160,16 @@ func (fc *FnCtx) funcValueName(v ssa.Value) string {
 		if fa, ok := x.X.(*ssa.FieldAddr); ok {
 			pt := fa.X.Type().Underlying().(*types.Pointer)
 			key, _ := fc.fieldKey(pt.Elem(), fa.Field)
+			for _, fi := range fc.P.Spec.FieldIs {
+				if fi[0] == key {
+					// the field only ever holds this function (scan obligation): devirtualised
+					if fc.devirtUsed == nil {
+						fc.devirtUsed = map[string]string{}
+					}
+					fc.devirtUsed[key] = fi[1]
+					return fi[1]
+				}
+			}
 			return "field:" + key
 		}
 		if fv, ok := x.X.(*ssa.FreeVar); ok {
@@ -328,7 +338,9 @@ func (fc *FnCtx) applyContract(cs *spec.FuncSpec, name string, args []Val, resT 
 		if fkeys, fref, fsorts, isFields := ec.fieldLocations(a); isFields {
 			for i, k := range fkeys {
 				fc.getHeap(st, k, fsorts[i])
-				fc.writeKey(st, k, fref, fc.S.Fresh("hv_"+k, fsorts[i]))
+				nv := fc.S.Fresh("hv_"+k, fsorts[i])
+				fc.existsNow(nv, k)
+				fc.writeKey(st, k, fref, nv)
 			}
 			continue
 		}
@@ -365,6 +377,7 @@ func (fc *FnCtx) applyContract(cs *spec.FuncSpec, name string, args []Val, resT 
 		default:
 			old := smt.Select(fc.getHeap(st, key, vs), ref)
 			nv := fc.S.Fresh("hv_"+key, vs)
+			fc.existsNow(nv, key)
 			if _, isLit := ref.IsIntLit(); !isLit && ref.Sort == smt.Int {
 				// assigning through a nil reference changes nothing
 				nv = fc.S.Name("hvn_"+key, smt.Ite(smt.Eq(ref, smt.IntLit(0)), old, nv))
@@ -877,4 +890,22 @@ func mentionsCalleeInternals(e spec.Expr) bool {
 		}
 	})
 	return found
+}
+
+// existsNow: a reference (or the backing array of a slice) that a callee wrote
+// into heap key k refers to an object that exists now: it is not one of the
+// objects this function allocates later (those get smaller numbers).
+func (fc *FnCtx) existsNow(v *smt.Term, k string) {
+	var lowest *smt.Term
+	if fc.refBase == nil {
+		lowest = smt.IntLit(int64(-fc.nextRef))
+	} else {
+		lowest = smt.App("+", smt.Int, fc.refBase, smt.IntLit(int64(-fc.nextRef)))
+	}
+	switch {
+	case v.Sort == smt.Slice:
+		fc.S.Assert(smt.Ge(smt.SlArr(v), lowest), "a slice written by a callee refers to an array that exists now")
+	case v.Sort == smt.Int && fc.refValuedKey(k):
+		fc.S.Assert(smt.Ge(v, lowest), "a reference written by a callee refers to an object that exists now")
+	}
 }
